@@ -348,7 +348,93 @@ def build_py(vs, store=None, upcfg=None):
 
     if vs is None:
         return None
+    if isinstance(vs, tuple):      # a single node
+        return go(vs)
     return {k: go(x) for k, x in vs}
+
+
+# ---- K2: type-directed dumping (Model dumpt) vs pydantic's model_dump of the Upload-annotated class ----
+def doc_ann_sx(depth):
+    inner = Sym("any") if depth <= 0 else doc_ann_sx(depth - 1)
+    return [Sym("model"), ["file", Sym("upload")], ["files", [Sym("opt"), [Sym("list"), Sym("upload")]]],
+            ["backup", [Sym("opt"), Sym("upload")]], ["title", [Sym("opt"), Sym("leaf")]],
+            ["parent", [Sym("opt"), inner]], ["children", [Sym("opt"), [Sym("list"), inner]]]]
+
+
+def typed_nodes(vs):
+    out = []
+
+    def go(n):
+        if n[0] == "model" and n[1] == TYPED:
+            out.append(n)
+            return
+        for x in (n[1] if n[0] == "list" else [x for _, x in n[1]] if n[0] == "dict" else [x for *_, x in n[2]] if n[0] == "model" else []):
+            go(x)
+    for _, x in vs or []:
+        go(x)
+    return out
+
+
+def vt_sx_canon(e):
+    if e == "unset":
+        return ("unset",)
+    t = e[0]
+    if t == "leaf":
+        return ("leaf", canon(sx_json(e[1])))
+    if t == "up":
+        return ("up", int(e[1]))
+    if t == "list":
+        return ("list", [vt_sx_canon(x) for x in e[1:]])
+    if t == "dict":
+        return ("dict", [(k, vt_sx_canon(x)) for k, x in e[1:]])
+    return ("model", [(k, vt_sx_canon(x)) for k, x in e[1:]])
+
+
+def real_dump_canon(v, ids):
+    bm = _clients.dep_module("base_model")
+    if isinstance(v, bm.Upload):
+        return ("up", ids[id(v)])
+    if isinstance(v, dict):
+        return ("dict", [(k, real_dump_canon(x, ids)) for k, x in v.items()])
+    if isinstance(v, list):
+        return ("list", [real_dump_canon(x, ids) for x in v])
+    return ("leaf", canon(v))
+
+
+def k2_typed_dump(run, calls):
+    nodes, seen = [], set()
+    for c in calls:
+        for n in typed_nodes(c.vs):
+            key = json.dumps(n, default=str)
+            if key not in seen:
+                seen.add(key)
+                nodes.append(n)
+    if not nodes:
+        run.broken("K2 typed dump", "no Upload-annotated model was generated")
+        return
+    res = model.batch("C11", [[Sym("dumpt"), doc_ann_sx(5), tree_sx(n)] for n in nodes])
+    bad = 0
+    for n, r in zip(nodes, res):
+        run.count()
+        if model.is_error(r):
+            run.broken("model dumpt", repr(r))
+            return
+        store = UploadStore(tempfile.gettempdir())
+        obj = build_py(n, store, None)
+        ids = {id(u): i for i, u in store.ups.items()}
+        real = real_dump_canon(obj.model_dump(by_alias=True, exclude_unset=True), ids)
+        store.close()
+        mt, mv = vt_sx_canon(r[0]), vt_sx_canon(r[1])
+        if mt != mv:
+            run.broken("model: dumpt and dumpv disagree (theorem C11_typed_dump_agrees contradicted)", json.dumps(n, default=str)[:800])
+        if real != mt:
+            bad += 1
+            if bad <= 2:
+                run.violation(f"K2: pydantic model_dump of the Upload-annotated input {json.dumps(n, default=str)[:300]} gives {real}, "
+                              f"model dumpt gives {mt}: an Upload below an annotated field is not dumped as itself",
+                              {"typed_model_tree": n, "real_dump": real, "model_dump": mt})
+    run.extra["k2_typed_dumps"] = len(nodes)
+    run.extra["k2_typed_dump_disagreements"] = bad
 
 
 # ---- independent walk of the INPUT tree: where are the uploads (by wire path)? ----
@@ -419,6 +505,8 @@ HEADERS = [
 ]
 # headers configured on the client object itself (its httpx client): must survive unless THIS call overrides them
 CLIENT_HEADERS = {"Authorization": "client-token", "X-Client": "c1"}
+# endpoint URLs of the client objects of the history pool (slot % len): path, trailing slash, query string, port
+URLS = [_clients.URL, "http://verif.test/graphql/", "https://api.verif.test:8443/v1/graphql?tenant=a%20b&x=1"]
 HTTPX_OWN = {"host", "accept", "accept-encoding", "connection", "user-agent", "content-length", "transfer-encoding"}
 QUERIES = ["query Q { x }", "mutation M($f: Upload!) { up(f: $f) }", "query U { s(a: \"zażółć\") }", ""]
 
@@ -433,7 +521,7 @@ class Call:
         h = Sym("none") if self.headers is None else [Sym("some"), [[k, v] for k, v in self.headers.items()]]
         t = Sym("none") if self.timeout is None else [Sym("some"), self.timeout]
         o = Sym("none") if self.opname is None else [Sym("some"), self.opname]
-        return [Sym("execute"), _clients.URL, self.query, o, vars_sx(self.vs), h, t]
+        return [Sym("execute"), getattr(self, "url", _clients.URL), self.query, o, vars_sx(self.vs), h, t]
 
     def kwargs(self):
         kw = {}
@@ -846,7 +934,7 @@ def _run_histories(args):
                     def handler(request, cap=cap):
                         cap["req"] = capture(request)
                         return _respond(request)
-                client = v.make(httpx.MockTransport(handler), client_headers=ch)
+                client = v.make(httpx.MockTransport(handler), client_headers=ch, url=URLS[len(pool) % len(URLS)])
                 pool.append((v, client, cap, client_attrs(client)))
         for h in histories:
             store = UploadStore(tmp)
@@ -895,7 +983,7 @@ MODEL_BYTES = {}
 MODEL_POS = {}
 
 
-def check_against_model(c: Call, m, obs, client_headers=None):
+def check_against_model(c: Call, m, obs, client_headers=None, url=None):
     """K1: list of differences between the model's request and the observation (empty = agree)."""
     req = m[0]
     kind = req[0]
@@ -907,8 +995,10 @@ def check_against_model(c: Call, m, obs, client_headers=None):
     if obs[0] != "sent" or obs[1] is None:
         return [f"model sends a {kind} request; impl raised {obs[1]}"]
     o = obs[1]
-    if o["method"] != "POST" or o["url"] != req[1]:
-        diffs.append(f"method/url {o['method']} {o['url']}")
+    # the model's request URL is the client object's url, unchanged (s_url): for pool objects with another endpoint
+    # the expectation is that endpoint
+    if o["method"] != "POST" or o["url"] != (url or req[1]):
+        diffs.append(f"method/url {o['method']} {o['url']} != POST {url or req[1]}")
     want_t = None if req[3] == "none" else int(req[3][1])
     if want_t is not None:
         if o["timeout"] != {"connect": want_t, "read": want_t, "write": want_t, "pool": want_t}:
@@ -1137,13 +1227,16 @@ def run(ctx):
             cc = Call(len(calls), "hist", src.vs, hname, h, rng.choice([None, 3, 7]), src.query, src.opname, cfg)
             cc.reuse = shape == "resend" or rng.random() < 0.5   # same variables/headers OBJECTS as earlier steps
             calls.append(cc)
-            steps.append((slot0 if shape == "same-client" else rng.randrange(n_slots), cc))
+            slot = slot0 if shape == "same-client" else rng.randrange(n_slots)
+            cc.hist_url = URLS[slot % len(URLS)]
+            steps.append((slot, cc))
         histories.append(steps)
     mres = model.batch("C11", [c.cmd() for c in calls])
     for c, m in zip(calls, mres):
         if model.is_error(m):
             run.broken("model", f"{m!r} on {c.replay()}")
             return
+    k2_typed_dump(run, calls)
     # the model's answer to "which bytes are sent" for every (content, position, seekable) that can occur
     combos = []
     for i in range(N_UPLOADS):
@@ -1179,7 +1272,8 @@ def run(ctx):
             m = mres[c.idx]
             where = f"history {hi} step {k + 1}/{len(h)} on client object {vname}"
             hist_rep = [{"client_object": f"{variants[s0 // 2].name}#{s0 % 2}", "call": c0.replay()} for s0, c0 in h[:k + 1]]
-            d = check_against_model(c, m, obs, ch) + check_spans(m, obs)
+            d = check_against_model(c, m, obs, ch, c.hist_url) + check_spans(m, obs)
+            run.dist("history_client_url", c.hist_url)
             if d:
                 k1.append((tree_size(c.vs) + 100 * k, vname, c, [f"{where}: " + d[0]] + d[1:], hist_rep))
             probs, cls = k3_property(c, obs, ch)
